@@ -29,54 +29,96 @@ def toNatOpt : Option Int → Option (Option Nat)
 
 def showBits (l : List Bool) : String := showList (l.map Bool.toNat)
 
-def stepLine (s : St) (line : String) : St × String :=
+/-- Two callers per way (each caller is a separate transaction calling the same exclusive method
+    `incr[k]` / `add[k]`): the transaction manager grants at most one of two competing callers per way
+    and cycle; which one is a static priority of the real manager, passed in as `prio` (index of the
+    winning caller per way).  This is driver glue (arbitration is C01–C07's business): the metric
+    model itself sees, per way, the executed call. -/
+def arbitrate {α} (prio : List Nat) (a b : List (Option α)) : List (Option α × Bool × Bool) :=
+  (prio.zip (a.zip b)).map fun (p, x, y) =>
+    match x, y with
+    | some u, some v => if p = 0 then (some u, true, false) else (some v, false, true)
+    | some u, none => (some u, true, false)
+    | none, some v => (some v, false, true)
+    | none, none => (none, false, false)
+
+structure DS where
+  prio : Option (List Nat)     -- none: one caller per way
+  st : St
+
+/-- attempts of the callers ↦ (executed call per way, text of the done bits) -/
+def callers (ds : DS) (ways : Nat) (t : List String) (key : String) (zeroIsNone : Bool := false) :
+    Option (List (Option Int) × String) :=
+  let norm (l : List (Option Int)) : List (Option Int) :=
+    if zeroIsNone then l.map (fun o => if o == some 0 then none else o) else l
+  match ((kv? t key).bind optIntList).map norm with
+  | none => none
+  | some l1 =>
+    if l1.length ≠ ways then none else
+    match ds.prio with
+    | none => some (l1, s!"d={showBits (l1.map Option.isSome)}")
+    | some prio =>
+      match ((kv? t (key ++ "2")).bind optIntList).map norm with
+      | none => none
+      | some l2 =>
+        if l2.length ≠ ways then none else
+        let r := arbitrate prio l1 l2
+        some (r.map (·.1), s!"d={showBits (r.map (·.2.1))} d2={showBits (r.map (·.2.2))}")
+
+def stepLine (ds : DS) (line : String) : DS × String :=
+  let s := ds.st
   let t := tokens line
+  let bad : DS × String := (ds, "bad-op")
   match t.head? with
   | some "cfg" =>
+    let fresh (st : St) (ways : Nat) : DS × String :=
+      match kv? t "prio" with
+      | none => ({ prio := none, st := st }, "ok")
+      | some v =>
+        let p := natList v
+        if p.length = ways ∧ p.all (· ≤ 1) then ({ prio := some p, st := st }, "ok") else ({ prio := none, st := St.none }, "bad-op")
     match kv? t "kind", nat? t "ways" with
     | some "counter", some ways =>
       match nat? t "w" with
-      | some w => (St.counter ways (Counter.init w), "ok")
-      | none => (St.none, "bad-op")
+      | some w => fresh (St.counter ways (Counter.init w)) ways
+      | none => ({ prio := none, st := St.none }, "bad-op")
     | some "tagged", some ways =>
       match nat? t "w", nat? t "tw", (kv? t "tags").bind intList with
       | some w, some tw, some tags =>
         let c : TCfg := { tags := tags, tagW := tw, w := w }
-        (St.tagged ways c c.init, "ok")
-      | _, _, _ => (St.none, "bad-op")
+        fresh (St.tagged ways c c.init) ways
+      | _, _, _ => ({ prio := none, st := St.none }, "bad-op")
     | some "hist", some ways =>
       match nat? t "n", nat? t "sw", nat? t "rw" with
       | some n, some sw, some rw =>
         let c : HCfg := { n := n, sw := sw, rw := rw }
-        (St.hist ways c c.init, "ok")
-      | _, _, _ => (St.none, "bad-op")
-    | _, _ => (St.none, "bad-op")
+        fresh (St.hist ways c c.init) ways
+      | _, _, _ => ({ prio := none, st := St.none }, "bad-op")
+    | _, _ => ({ prio := none, st := St.none }, "bad-op")
   | some "cyc" =>
     match s with
-    | St.none => (s, "bad-op")
+    | St.none => bad
     | St.counter ways st =>
-      match (kv? t "i").bind optIntList with
-      | some l =>
-        if l.length = ways ∧ l.all (fun o => o == some 0 || o == some 1) then
+      match callers ds ways t "i" true with
+      | some (l, d) =>
+        -- an attempted incr is written `1`; `0` and `-` both mean "not attempted"
+        if l.all (fun o => o == none || o == some 1) then
           let bits := l.map (· == some 1)
-          (St.counter ways (st.step bits), s!"d={showBits bits} cnt={st.count}")
-        else (s, "bad-op")
-      | none => (s, "bad-op")
+          ({ ds with st := St.counter ways (st.step bits) }, s!"{d} cnt={st.count}")
+        else bad
+      | none => bad
     | St.tagged ways c st =>
-      match (kv? t "t").bind optIntList with
-      | some l =>
-        if l.length = ways then
-          (St.tagged ways c (c.step st l), s!"d={showBits (l.map Option.isSome)} oh={showBool c.oneHot} c={showList st}")
-        else (s, "bad-op")
-      | none => (s, "bad-op")
+      match callers ds ways t "t" with
+      | some (l, d) => ({ ds with st := St.tagged ways c (c.step st l) }, s!"{d} oh={showBool c.oneHot} c={showList st}")
+      | none => bad
     | St.hist ways c st =>
-      match ((kv? t "s").bind optIntList).bind (fun l => l.mapM toNatOpt) with
-      | some l =>
-        if l.length = ways ∧ l.all (fun o => o.all (· < 2 ^ c.sw)) then
-          (St.hist ways c (c.step st l),
-            s!"d={showBits (l.map Option.isSome)} cnt={st.count} sum={st.sum} min={st.min} max={st.max} b={showList st.buckets}")
-        else (s, "bad-op")
-      | none => (s, "bad-op")
-  | _ => (s, "bad-op")
+      match (callers ds ways t "s").bind (fun (l, d) => (l.mapM toNatOpt).map (·, d)) with
+      | some (l, d) =>
+        if l.all (fun o => o.all (· < 2 ^ c.sw)) then
+          ({ ds with st := St.hist ways c (c.step st l) },
+            s!"{d} cnt={st.count} sum={st.sum} min={st.min} max={st.max} b={showList st.buckets}")
+        else bad
+      | none => bad
+  | _ => bad
 
-def main : IO Unit := Proto.run St.none stepLine
+def main : IO Unit := Proto.run ({ prio := none, st := St.none } : DS) stepLine
